@@ -590,4 +590,27 @@ def run(ctx):
     ctx.check(len(hexf) == 1, R, 'hex-column', D, 'each byte is printed as " %02X"', 'hex column format changed')
     asc = [x for x in walk(dbody) if x.get('kind') == 'IfStmt' and nf(if_parts(x)[0]) in ('((current_value < 32) || (127 <= current_value))', '((current_value < 32) || (current_value >= 127))')]
     ctx.check(len(asc) == 1, R, 'ascii-column', D, 'bytes outside 0x20..0x7E are shown as a blank', 'ASCII column predicate changed')
+    # pointer/count pairing in the forwarding overloads: a count handed over next to X.data() is
+    # X.size() of the same container (a count taken from the other buffer walks off the shorter one)
+    import re as _re
+    from guard import subst_locals
+    n_pairs = 0
+    for f in u.functions:
+        if f.get('name') not in ('format_data', 'print_data') or body_of(f) is None:
+            continue
+        for c in walk(body_of(f)):
+            if c.get('kind') != 'CallExpr' or call_name(c) not in ('format_data', 'print_data'):
+                continue
+            a = call_args(c)
+            for i_ in range(len(a) - 1):
+                ptr = subst_locals(canon(a[i_]), c)
+                holders = set(_re.findall(r'([A-Za-z_][\w.]*?)\.data\(\)', ptr))
+                if not holders or 'vector' not in ''.join(dtype(member_call_object(x)) or '' for x in walk_deep(a[i_], u) if x.get('kind') == 'CXXMemberCallExpr' and call_name(x) == 'data') + ''.join((dtype(member_call_object(x)) or '') for v_ in walk(body_of(f)) if v_.get('kind') == 'VarDecl' and v_.get('name') and v_['name'] in canon(a[i_]) for x in walk(v_) if x.get('kind') == 'CXXMemberCallExpr' and call_name(x) == 'data'):
+                    continue
+                cnt = subst_locals(canon(a[i_ + 1]), c)
+                sizes = set(_re.findall(r'([A-Za-z_][\w.]*?)\.size\(\)', cnt))
+                n_pairs += 1
+                ctx.check(sizes == holders, R, 'pairing|%s@%s|arg%d' % (f.get('name'), c.get('_line'), i_), c, 'count %s belongs to %s' % (cnt, ptr),
+                          'the element count passed next to %s is %s: it is not the size of that container, so the callee walks %s with the length of another buffer' % (ptr, cnt, sorted(holders)))
+    ctx.require(n_pairs >= 2, 'format_data/print_data forwarding overloads: no (data(), size()) argument pairs found')
     ctx.note('R1 is exhaustive over the bytes admitted by the printable predicate (%d of 256).' % len(admitted))
